@@ -107,6 +107,14 @@ class Model:
             stack.extend(ups.get(cur, ()))
         return False
 
+    def closes_future_ring(self, links) -> bool:
+        """Would these connections leave some placeholder on a ring of placeholders (node level)?"""
+        pub2 = {k: (list(v) if isinstance(v, list) else v) for k, v in self.pub.items()}
+        for (n, key), up in links:
+            if not self.is_w(n):
+                pub2.setdefault((n, key), []).append(up)
+        return any(not self.is_w(n) and self.future_ring(n, pub2) for (n, _), _ in links)
+
     def sources(self, m: int, j: int, pub=None):
         """Worker output ports that reach output port (m, j)."""
         return sorted(p for p in self.closure(m, j, pub)[0] if self.is_w(p[0]))
